@@ -327,6 +327,12 @@ async def _run_test_task(runner, node):
     if missing and status in ("PASS", "WARN") and getattr(sim, "missing_state_aborts", True):
         # a test whose required state cannot be fetched aborts (get_mode ?a)
         status = "ERROR"
+    late = False
+    if status.startswith("LATE:"):
+        # the result message arrives 45 virtual seconds after the test finished (only meaningful when the test
+        # timeout is long enough for the result polling of the runner not to count as an overrun)
+        status = status[5:]
+        late = float(sim.run_params.get("test_timeout", 100)) >= 100
     reported = status != "NEVER"
     if status in ("PASS", "WARN"):
         for request in gets:
@@ -339,10 +345,13 @@ async def _run_test_task(runner, node):
     marker = f"log-{len(sim.events)}"
     if reported:
         test_id = types.SimpleNamespace(uid=uid, name=name)
-        runner.job.result.tests.append(
-            {"name": test_id, "status": status, "time_elapsed": str(duration), "logdir": marker})
+        record = {"name": test_id, "status": status, "time_elapsed": str(duration), "logdir": marker}
+        if late:
+            asyncio.get_event_loop().call_later(45.0, runner.job.result.tests.append, record)
+        else:
+            runner.job.result.tests.append(record)
     sim.log("end", worker=wid, name=name, uid=uid, ident=ident, attempt=attempt, status=status,
-            reported=reported, marker=marker, start=event["i"], duration=duration)
+            reported=reported, late=late, marker=marker, start=event["i"], duration=duration)
 
 
 # ---------------------------------------------------------------------------
